@@ -57,8 +57,24 @@ func (C12) Generate(t *tape.Tape, tier string) interface{} {
 	}
 	o.Anonymous = t.Bool(1, 3)
 	o.Lambdas = t.Bool(1, 3)
+	if t.Bool(1, 60) {
+		o.MinFiles, o.MaxFiles = 40, 120 // a large project: whatever depends on the number of files or handlers
+	}
+	huge := t.Bool(1, 600)
+	if huge {
+		o.MinFiles, o.MaxFiles = 8193, 8400 // beyond 8192 files: one scan of the whole project, nothing else
+	}
 	p := gen.GenProject(t, o)
 	sc := &C12Scenario{Files: p.Files}
+	if huge {
+		all := make([]int, len(p.Files))
+		for i := range all {
+			all[i] = i
+		}
+		sc.Procs = []C07Proc{{Schedule: sim.Canonical(), Ops: []C07Op{{Pass: "api", Files: all}}}}
+		sc.CwdIgnore = t.Bool(1, 3)
+		return sc
+	}
 	sc.Procs = genHistory(t, len(p.Files), thorough, []string{"api", "api", "api", "api", "ident", "full", "bs"})
 	if t.Bool(1, 2) {
 		steps := t.Int(2, 3)
@@ -128,6 +144,9 @@ func (C12) Run(ctx *sim.RunCtx, data json.RawMessage) (*sim.Outcome, error) {
 	}
 	r := &c07run{ctx: ctx, sc: c7, out: out, paths: map[string]string{}}
 	n := len(sc.Files)
+	if n > 1000 {
+		ctx.ProcTimeout = 15 * time.Minute // thousands of files per pass
+	}
 	// the identifier set and model handed to the API scan: computed once for the whole project
 	allDir := r.newDir()
 	for i := range sc.Files {
@@ -190,7 +209,10 @@ func (C12) Run(ctx *sim.RunCtx, data json.RawMessage) (*sim.Outcome, error) {
 	exercised := false
 	var hist []string
 	for pi, p := range sc.Procs {
-		proc := &sim.Proc{Schedule: p.Schedule, Cwd: ctx.Dir}
+		proc := &sim.Proc{Schedule: p.Schedule, Cwd: ctx.Dir, Parallel: p.Parallel}
+		if p.Parallel {
+			out.Faults["real-parallelism"]++
+		}
 		var delivered [][]int
 		for _, op := range p.Ops {
 			var files []int
@@ -235,7 +257,9 @@ func (C12) Run(ctx *sim.RunCtx, data json.RawMessage) (*sim.Outcome, error) {
 		}
 		hist = append(hist, "|")
 		saved := ctx.ProcTimeout
-		ctx.ProcTimeout = 60 * time.Second
+		if n <= 1000 {
+			ctx.ProcTimeout = 60 * time.Second
+		}
 		res, err := ctx.Run(proc)
 		ctx.ProcTimeout = saved
 		if err != nil {
@@ -361,7 +385,7 @@ func (C12) Run(ctx *sim.RunCtx, data json.RawMessage) (*sim.Outcome, error) {
 				if stripped[fi] {
 					text = stripControllerAnnotations(text)
 				}
-				os.WriteFile(p, []byte(text), 0644)
+				os.WriteFile(p, []byte(materialiseLegacy(text)), 0644)
 				if stripped[fi] {
 					continue // a plain class here: contributes nothing
 				}
